@@ -23,6 +23,8 @@ func cmdSelftest(args []string) {
 		{"C10", "handleArrayValues", "bounds"},
 		{"C10", "handleObjectValues", "bounds"},
 		{"C10", "ReadStringBytes", "bounds"},
+		{"C10", "uncovered", "bounds"},
+		{"C16", "UnescapeStringContent", "ensures"},
 		{"C09", "handleObjectValues", "err-identity"},
 		{"C07", "handleObjectValues", "sim"},
 		{"C07", "handleArrayValues", "sim"},
